@@ -64,6 +64,35 @@ def _d1(chk, fb):
         else:
             chk.refuted("D1", g.key, "family-name-read:" + name, g.loc(), "%s::getName() returns \"%s\", which the writer emits as the family name, but readDiscreteDistribution has no branch for it (known: %s)" % (cls.split("::")[-1], name, sorted(rnames)),
                         witness={"history": "write a %s, read the text back" % name})
+    # a family name the writer (or the reader) tests for by comparing getName() with a literal must be a name some family has
+    known = {nm for nm, _ in fams.values()}
+    for g in (wr, rd):
+        inits = local_inits(g)
+        for n in walk(g.body):
+            ops = None
+            if n["k"] == "BinaryOperator" and n.get("op") in ("==", "!="):
+                ops = kids(n)
+            elif is_call(n) and n.get("op") in ("==", "!=") and n["callee"].get("via") == "operator":
+                ops = ([g.obj(n)] if "obj" in n else []) + list(g.args(n))
+            if not ops or len(ops) != 2:
+                continue
+            lit = [x for o in ops for x in walk(o) if x["k"] == "StringLiteral"]
+            other = [o for o in ops if not any(x["k"] == "StringLiteral" for x in walk(o))]
+            if len(lit) != 1 or len(other) != 1:
+                continue
+            src = render(other[0], inits)
+            if "getName()" not in src or "getParameter" in src or "Parameter" in (strip(other[0]).get("ty") or ""):
+                continue
+            o_ = strip(other[0])
+            if not any(is_call(y) and y["callee"]["name"] == "getName" and "Distribution" in (y["callee"].get("cls") or "") for y in list(walk(other[0])) + ([z for z in walk(inits[o_["decl"]["id"]])] if o_["k"] == "DeclRefExpr" and o_["decl"]["id"] in inits else [])):
+                continue
+            nm = lit[0]["val"]
+            if nm in known:
+                chk.proved("D1", g.key, "family-name-tested:" + nm, g.loc(n), "\"%s\" is the name of a family" % nm)
+            else:
+                chk.refuted("D1", g.key, "family-name-tested:" + nm, g.loc(n),
+                            "%s compares a distribution's getName() with \"%s\", a name no concrete family returns (names: %s): the branch is dead and what it writes or reads for that family is skipped" % (g.name, nm, sorted(known)),
+                            witness={"history": "write the family whose name is close to \"%s\" and read the text back" % nm})
     # writer keys
     wkeys = {}
     for n in walk(wr.body):
